@@ -650,7 +650,8 @@ ENGINES.append(dict(name="sched-lab", path="checks/c19_threads.cpp, harness/vsch
 # ----------------------------------------------------------------------------------------------- later additions
 # Oracles and alphabets added while strengthening the checks against independently authored changes (DESIGN.md 13.5b).
 def _more(prop, text, bounds_quick=None, bounds_thorough=None):
-    CHECKS[prop]["level_text"] += "; " + text
+    if text:
+        CHECKS[prop]["level_text"] += "; " + text
     if bounds_quick:
         CHECKS[prop]["bounds"]["quick"] = bounds_quick
     if bounds_thorough:
@@ -665,6 +666,7 @@ _more("C02", "truncations and field-value mutations are additionally read into t
 _more("C06", "the capacity sweep is repeated on a writer that already holds one copy of the value (remaining capacity c in a buffer "
              "of len + c bytes)")
 _more("C08", "reader rigs: PedanticBufferReader, BufferReader, StreamReader, BoundedReader<PedanticBufferReader>; flat and nested context")
+CHECKS["C09"]["level_text"] = CHECKS["C09"]["level_text"].replace("80-type universe", "90-type universe")
 _more("C09", "", "90 types, 8100 ordered pairs, <= 60 values per A", "same")
 _more("C10", "on the read side the failing block transfer first fills its destination range with 0xaa (a failed transfer may have "
              "stored anything); the status returned must still be the reader's")
